@@ -175,6 +175,25 @@ def run(sc):
                 outcome, res = harness.call(sim, drv.close)
                 shape.append((k, outcome))
                 continue
+            if k == "micro800_visit":
+                # another LogixDriver object in the same process opens and closes a connection to a Micro800 at
+                # another address; nothing of that may reach the driver under test
+                envM = session.build({"seed": sc["seed"], "world": {
+                    "layout": "micro800", "ip": "10.0.0.88", "identity": {"product_name": "2080-LC50-48QWB", "rev_major": 12},
+                    "project": {"name": "M8", "types": {}, "programs": {}, "wallclock_us": 10**15, "tags": [
+                        {"name": "m", "scope": None, "type": "DINT", "dims": [], "kind": "user", "access": 0, "alias": False,
+                         "software_control": 1 << 26, "instance_id": 1, "init": "01000000"}]},
+                    "choices": {"handles": "small"}}}, sim=sim, net=net)
+                d2 = LogixDriver("10.0.0.88", init_tags=False)
+                o1, r1 = harness.call(sim, d2.open)
+                o2, r2 = harness.call(sim, d2.close)
+                shape.append((k, o1, o2))
+                sim.probe("second_driver_micro800_visit")
+                for h in envM.world.hits.items:
+                    h["features"]["driver"] = "second"
+                    hits.items.append(h)
+                session.begin_op(env, op["id"] + "/after")
+                continue
             if k == "idle":
                 sim.advance(op["us"])
                 continue
@@ -718,6 +737,8 @@ def gen(seed, tier, prop="C14"):
                     "route": route, "data_type": dt, "where": where,
                     "reply": {"status": status, "ext": ext, "data": rdata.hex() if status == 0 else b"".hex()}})
     ops.append({"id": "oz", "kind": "close"})
+    if dcls == "LogixDriver" and r.random() < 0.2:
+        ops.insert(r.randrange(0, len(ops) - 1), {"id": "mv", "kind": "micro800_visit"})
     sc["ops"] = ops
     return sc
 
